@@ -10,7 +10,7 @@ package tiff
 // header.TiffHeaderOffset is a uint32: the offset clauses are stated for streams shorter than 4 GiB from the start position.
 
 //@ func ScanTiffHeader
-//@   props C12 C07 C08 C01 C02
+//@   props C12 C07 C08 C01 C02 C06
 //@   entry
 //@   requires r != nil
 //@   modifies stream(r)
@@ -18,11 +18,11 @@ package tiff
 //@   ensures [C12 C07 C08] err != nil ==> err == meta.ErrNoExif
 //@   ensures [C12 C07 C08] err == nil ==> header.FirstIfd == ifds.IFD0 && header.ExifLength == 0
 //@   ensures [C12 C07 C08] err == nil ==> 0 <= o && header.TiffHeaderOffset == uint32(o) && old(pos(r)) + o + 32 <= lim(r)
-//@   ensures [C12 C07 C08] err == nil ==> isSigAt(r, old(pos(r)) + o)
+//@   ensures [C12 C07 C08 C06] err == nil ==> isSigAt(r, old(pos(r)) + o)
 //@   ensures [C12 C07 C08] err == nil ==> forall j int :: 0 <= j && j < o ==> !isSigAt(r, old(pos(r)) + j)
-//@   ensures [C12 C07 C08] err == nil && sigLEat(r, old(pos(r)) + o) ==> header.ByteOrder == utils.LittleEndian && header.FirstIfdOffset == le32At(r, old(pos(r)) + o + 4)
-//@   ensures [C12 C07 C08] err == nil && sigBEat(r, old(pos(r)) + o) ==> header.ByteOrder == utils.BigEndian && header.FirstIfdOffset == be32At(r, old(pos(r)) + o + 4)
-//@   ensures [C12 C07 C08] err == nil && is(r, "*bufio.Reader") ==> pos(r) == old(pos(r)) + o
+//@   ensures [C12 C07 C08 C06] err == nil && sigLEat(r, old(pos(r)) + o) ==> header.ByteOrder == utils.LittleEndian && header.FirstIfdOffset == le32At(r, old(pos(r)) + o + 4)
+//@   ensures [C12 C07 C08 C06] err == nil && sigBEat(r, old(pos(r)) + o) ==> header.ByteOrder == utils.BigEndian && header.FirstIfdOffset == be32At(r, old(pos(r)) + o + 4)
+//@   ensures [C12 C07 C08 C06] err == nil && is(r, "*bufio.Reader") ==> pos(r) == old(pos(r)) + o
 //@   ensures [C12 C07 C08] err != nil && is(r, "*bufio.Reader") && !fault(r) && bsize(r) >= 32 ==> forall j int :: 0 <= j && j <= lim(r) && old(pos(r)) + j + 32 <= lim(r) ==> !isSigAt(r, old(pos(r)) + j)
 //@   loop 0 invariant 0 <= discarded && sid(br) == sid(r) && lim(br) == lim(r)
 //@   loop 0 invariant pos(br) == old(pos(r)) + discarded
